@@ -131,7 +131,7 @@ func newStubTargets() []stubTarget {
 }
 
 func c07(c *wk.Ctx) {
-	c.Note("rule", "every input runs in the worker under accounting: no panic / fatal error; runtime TotalAlloc delta <= 64 MiB + 64*len(input); process CPU time <= 5 s (a watchdog ends a case that is still running after 12 s of CPU or 12 GiB of heap and reports it under the same key). Inputs (<= 64 KiB): random bytes; valid encodings with each length / count / signature-length field replaced by 0xffffffff, 0x80000000, 0x7fffffff, caps and caps+1, 2^24, len+1; dynamic values with hostile signatures ([v], [()], deep nestings, long names). Entry points: Message.Read, value.NewValue, signature TypeReader.Read and encoding.Decoder.Decode for random signatures, ReadMetaObject, ReadObjectReference, ReadServiceInfo, ReadCapabilityMap, generated stub Receive (freshly generated Probe stub and the checked-in generic object stub: every action, argument payloads mutated), signature.Parse, idl.ParsePackage. Evaluations count inputs; distinct non-trivial = distinct (entry point, input class, length bucket, outcome).")
+	c.Note("rule", "every input runs in the worker under accounting: no panic / fatal error; runtime TotalAlloc delta <= 64 MiB + 64*len(input); process CPU time <= 5 s (a watchdog ends a case that is still running after 12 s of CPU or 12 GiB of heap and reports it under the same key). Inputs (<= 64 KiB): random bytes; valid encodings with each length / count / signature-length field replaced by 0xffffffff, 0x80000000, 0x7fffffff, caps and caps+1, 2^24, len+1; dynamic values with hostile signatures ([v], [()], deep nestings, long names, struct definitions whose names and types disagree in number). Entry points: Message.Read, value.NewValue, signature TypeReader.Read and encoding.Decoder.Decode for random signatures, ReadMetaObject, ReadObjectReference, ReadServiceInfo, ReadCapabilityMap, generated stub Receive (freshly generated Probe stub and the checked-in generic object stub: every action, argument payloads mutated), signature.Parse, idl.ParsePackage. Evaluations count inputs; distinct non-trivial = distinct (entry point, input class, length bucket, outcome).")
 	c.Guard(guardHeap, guardCPU)
 	scal := append(append([]rc.Kind{}, rc.AllScalars...), rc.Dyn)
 	inner := rc.GenOpts{Depth: 2, Width: 3, ComparableKeys: true, MaxAnonNest: 3}
@@ -234,7 +234,14 @@ func c07(c *wk.Ctx) {
 		var sig string
 		class := ""
 		d := 1 + rng.Intn(c.Pick(3000, 20000))
-		switch i % 8 {
+		switch i % 9 {
+		case 8:
+			t := rc.GenType(rng, rc.GenOpts{Depth: 2 + rng.Intn(3), Width: 1 + rng.Intn(4), Scalars: c09Scalars, MinTuple: 1})
+			for k := 0; k < 20 && !strings.Contains(t.Sig(), "<"); k++ {
+				t = rc.GenType(rng, rc.GenOpts{Depth: 2 + rng.Intn(3), Width: 1 + rng.Intn(4), Scalars: c09Scalars, MinTuple: 1})
+			}
+			sig, _ = arityMutate(rng, t.Sig())
+			class = "struct-arity"
 		case 0:
 			sig, class = "[v]", "zero-width-list"
 		case 1:
